@@ -8,7 +8,7 @@ CLAIMED = {
                 text='Static: the alphabet tables (from_ascii over all 256 bytes, as_ascii, as_index, symbols(), as_str(), default symbol) are '
                      'extracted from the MIR of /repo and compared exhaustively; for the AVX2 and SSE2 encoders every byte lane is shown to hold a iff the input byte equals as_str()[a] '
                      '(index and letter in lock-step over 0..K), unknown/error flags accumulate, the error test dominates Ok with a rescan from the start, the generic tail gets seq[i..]/dst[i..] '
-                     'with the same i and its result is propagated; the generic encoder and the dispatcher arms are matched. Acceptance is a finite table and the rest is code shape.',
+                     'with the same i and its result is propagated; the generic encoder and the dispatcher arms are matched; from_str / EncodedSequence::encode forward their whole input. Acceptance is a finite table and the rest is code shape.',
                 ref='DESIGN.md §4 C05'),
     'C10': dict(tech='exhaustive complement table + relational summary / sibling cross-check of the four reverse_complement bodies',
                 text='Static: complement table proven an involution with the documented pairs; each reverse_complement body is summarised '
@@ -20,7 +20,7 @@ CLAIMED = {
 CLAIMED['C19'] = dict(tech='compiler-computed layouts for a (T,C) grid + paired-update / who-writes rule + derive table + accessor/iterator delegation matching',
     text='Static: rustc layout_of for the row type of DenseMatrix<T,C> over 8 element types x 12 column counts (align 32, size multiple of align and of size_of(T), '
          'size >= C*size_of(T), array at offset 0); every length change of the row vector is paired with the same row-count update; Clone/PartialEq/Eq are derived; '
-         'Index/IndexMut/iterators/ravel/fill/from_rows matched against their defining relations. Holds for every operation sequence because each mutator preserves the invariant.',
+         'Index/IndexMut/iterators/ravel/fill/from_rows/reserve matched against their defining relations. Holds for every operation sequence because each mutator preserves the invariant.',
     ref='DESIGN.md §4 C19')
 
 CLAIMED['C09'] = dict(tech='guard-dominance + sibling deviance on divisions by background frequencies, relational matching of reductions and validation exits',
@@ -34,7 +34,7 @@ CLAIMED['C02'] = dict(tech='guard dominance / check-before-use on the scanner lo
     text='Static (part): in Scanner::next the block maximum is never unwrapped unguarded, a candidate index is bounded by the number of valid positions before it is rescored, '
          'the position formula is col*(rows-wrap)+block start+row, the exact and 8-bit comparisons are inclusive with the 8-bit threshold an under-estimate, the block ranges partition the sequence rows, '
          'hits are pushed once and only popped, every score wrapper resizes the reused buffer on every path, every 8-bit accumulation feeding the pre-filter saturates, '
-         'and the block maximum that gates a block covers all its rows and columns. These are necessary conditions of the property on every input; numerical equality of scores is reduced to C01.',
+         'the block maximum that gates a block covers all its rows and columns, Threshold::threshold lists every cell >= the byte threshold, and the look-ahead-row bookkeeping (configure / configure_wrap) holds. These are necessary conditions of the property on every input; numerical equality of scores is reduced to C01.',
     ref='DESIGN.md §4 C02')
 CLAIMED['C03'] = dict(tech='estimate-direction (UP/DOWN) dataflow on the pruning bound + guard dominance on every update of the best hit',
     text='Static (part): every value assigned to the pruning bound of Scanner::max is scale(exact score) (an under-estimate), all 8-bit tests are inclusive, candidates are bounded before rescoring, '
@@ -56,7 +56,7 @@ CLAIMED['C18'] = dict(tech='check-before-use dataflow on every __getitem__, sibl
 CLAIMED['C14'] = dict(tech='provenance matching of matrix-fill stores, constant-table extraction, who-may-call on stream primitives, must-pass-through state reset, relational summary of buffer compaction, field-plumbing by variable names',
     text='Static (part): at the 8+ matrix-filling sites the row index is the enumerate counter of the value vector and the column the as_index of the paired symbol; JASPAR row order [A,C,G,T]; duplicate-symbol '
          'rejection; only read_until/read_line reach the stream (so records are a function of the byte stream, whatever the chunking); state reset dominates every returned record; compaction keeps buffer[start..]; '
-         'Record/Motif fields and the TRANSFAC tag table are not crossed. Acceptance of arbitrary well-formed text by the nom grammar is not decided.',
+         'Record/Motif fields and the TRANSFAC tag table are not crossed; one-line parsers cannot cross their line end and blank separator lines are recognised by content. Acceptance of arbitrary well-formed text by the nom grammar is not decided.',
     ref='DESIGN.md §4 C14')
 CLAIMED['C15'] = dict(tech='panic-site inventory over the call graph reachable from the 8 reader entry points with re-verified discharge rules; reachability of Incomplete-producing parsers; table agreement; loop-exit analysis',
     text='Static: every Assert terminator, panicking call (unwrap/expect/panic!/unreachable!/unimplemented!) and may-panic std call (slice/str indexing, split_at, copy_within) in the 119 workspace bodies '
@@ -73,13 +73,13 @@ CLAIMED['C16'] = dict(tech='relational effect summaries of include/exclude/_new 
 CLAIMED['C17'] = dict(tech='wrapper/core callee agreement over the call graph, finite table of the method-string match, unused-argument dataflow, guard-polarity deviance, dominance (configure before score), panic-site inventory of the binding',
     text='Static (part): the binding adds no arithmetic, so what is checked is plumbing: 18 wrappers reach the core method(s) of the same name for both alphabets (p-value/score via the "meme"/"tfmpvalue" table), '
          'every named argument is read and threshold/block_size reach the scanner, log_odds rescales exactly when the background differs, configure dominates scoring with the same operands, '
-         'create/from_counts share the conversion chain, and all 100+ panic sites of the binding\'s own bodies are discharged so argument errors are exceptions; Python file objects are transported byte-exactly (request buf.len(), refuse only longer answers, copy and return the answer length). Numerical equality is inherited from C01-C10, C14.',
+         'create/from_counts share the conversion chain, and all 100+ panic sites of the binding\'s own bodies are discharged so argument errors are exceptions; Python file objects are transported byte-exactly (request buf.len(), refuse only longer answers, copy and return the answer length); no user number is narrowed to f32 and widened again, and no body of the binding does floating-point arithmetic. Numerical equality is inherited from C01-C10, C14.',
     ref='DESIGN.md §4 C17')
 
 CLAIMED['C01'] = dict(tech='lane-dependence abstract interpretation of the SIMD kernels (vector = tuple of byte provenance terms, loops summarised on symbolic carried values), linear-form bookkeeping rules, dispatcher arm table',
     text='Static (part): for the 4 SIMD scoring kernels every stored lane is shown to be Σ_j T_j[seq(row+j, c)] for its own column c (identity lane permutation after all shuffles/permutes), accumulators start at the '
          'additive identity, table/sequence/result pointers advance by their own strides, the sequence row is the range element and the result row its position, all columns stored once; the scalar kernel, '
-         'the L+1-M bookkeeping of the 5 wrappers, the 6 index<->(row,col) sites, the 18 dispatcher arms and the K<=8 guard are matched. Floating-point rounding and the cfg-excluded NEON arm are not decided.',
+         'the L+1-M bookkeeping of the 5 wrappers, the 6 index<->(row,col) sites, the 18 dispatcher arms and the K<=8 guard are matched; the inputs the kernels read are covered by re-evaluating the striping rules (C04 R4.1-R4.4) and the look-ahead-row rules (R4.5, R4.8). Floating-point rounding and the cfg-excluded NEON arm are not decided.',
     ref='DESIGN.md §4 C01')
 
 CLAIMED['C07'] = dict(tech='lane-dependence abstract interpretation of the max/argmax kernels (reduction identity in the element domain, value/index mask pairing, lane->column map of the spilled indices), guard dominance, relational matching of threshold',
@@ -97,7 +97,7 @@ CLAIMED['C04'] = dict(tech='lane-dependence abstract interpretation of the AVX2 
 CLAIMED['C06'] = dict(tech='pointer provenance / alignment classification and linear bounds entailment (Fourier-Motzkin) on the memory-access log of the lane engine, guard dominance on kernel call sites, who-may-call inventory of unsafe code',
     text='Static (part): every unsafe fn and unsafe call of the core crate is inventoried and claimed by a rule; each scoring kernel has one caller whose call is dominated by the wrap check, the resize and the early '
          'return; all 60+ aligned loads/stores/streams are on row-derived pointers at offsets and steps that are multiples of the access width (Row layout from rustc); every vector access through a slice pointer '
-         '(encoders, AVX2 striping: 36 accesses) is proved in bounds from the loop guard by linear entailment; row-pointer accesses stay inside their row; uninitialised storage escapes only when fully written. '
+         '(encoders, AVX2 striping: 36 accesses) is proved in bounds from the loop guard by linear entailment; row-pointer accesses stay inside their row; the 13 vector accesses to local scratch buffers stay inside them; uninitialised storage escapes only when fully written. '
          'Documented gap: caller-supplied row ranges outside the sequence rows (out of contract); std/generic-array/intrinsics trusted.',
     ref='DESIGN.md §4 C06')
 
